@@ -4,6 +4,7 @@ package checks
 
 import (
 	"encoding/json"
+	"fmt"
 	"reflect"
 	"testing"
 
@@ -56,6 +57,8 @@ type filterFacts struct {
 	outcomes string
 	skipped  string
 }
+
+var c10Ev *Ev
 
 var checkFilter = register("c10.filter", func(c FilterCase) *Violation {
 	v, _ := checkFilterFacts(c)
@@ -148,6 +151,31 @@ func checkFilterFacts(c FilterCase) (*Violation, filterFacts) {
 		}
 		vars["root"] = prP.doc
 		pr.vars = vars
+		// the reference model decides the outcome where it can (independent of the
+		// executor's predicate code); the implementation's own stand-alone
+		// predicate check is the fallback for behaviour the model leaves open
+		qev := c10Ev
+		if qev == nil {
+			qev = &Ev{Prop: "C10"} // replay mode
+		}
+		var quirks []string
+		if qev.quirk("exists_unary_sign_nonnumeric") {
+			quirks = append(quirks, "D17b")
+		}
+		d19 := qev.quirk("subscript_drops_null")
+		if mr := RunModel(sp, x, o, map[string]any(vars), d19, quirks...); (mr.Err == nil || !mr.Err.dontCare) && !mr.SawD9 && !mr.OrderOpen {
+			switch {
+			case mr.Err != nil && mr.Err.hard:
+				return "H", fmt.Errorf("%s", mr.Err.msg)
+			case mr.Err != nil || len(mr.Items) != 1:
+				return "?", nil
+			case mr.Items[0] == true:
+				return "T", nil
+			case mr.Items[0] == false:
+				return "F", nil
+			}
+			return "U", nil
+		}
 		q := RunQuery(pr.ctx, pr.p, x, pr.opts(false)...)
 		switch {
 		case q.Panic != "" || isD9(q.Err):
@@ -183,7 +211,7 @@ func checkFilterFacts(c FilterCase) (*Violation, filterFacts) {
 	at := func() string { return fPath.Canon() + " on " + c.Doc }
 	if hard != nil {
 		if got.Class != EHard {
-			return violf("the condition of %s raises the non-suppressible error %q on an item (outcomes %s), but the query returns %s", at(), hard, f.outcomes, got), f
+			return violf("the condition of %s raises a non-suppressible error (%v) on an item (outcomes %s), but the query returns %s", at(), hard, f.outcomes, got), f
 		}
 		return nil, f
 	}
@@ -219,6 +247,7 @@ func checkFilterFacts(c FilterCase) (*Violation, filterFacts) {
 
 func TestC10(t *testing.T) {
 	ev := newEv(t, "C10")
+	c10Ev = ev
 	ev.replayTier(t)
 	ev.rapidProp(t, "random", func(rt *rapid.T) {
 		cfg := GenCfg{MaxNodes: 10, HardErrPct: 8, NoWildKey: true, NoKeyvalue: true}.withDefaults()
